@@ -163,11 +163,15 @@ def generate(ctx):
     # helpers: published expressions per stability branch; integer heights must not truncate
     def t_helpers(run):
         run.scope = "ffm_kormann_meixner.helpers"
-        for ztype in ("float", "int"):
+        # "given as integers or floats alike": every numeric input of the helpers, not only the height
+        for ztype, ltype, wtype in (("float", "float", "float"), ("int", "float", "float"), ("float", "int", "float"),
+                                    ("int", "int", "int"), ("float", "float", "int")):
+            tag = "zm:%s,L:%s,ws/u*:%s" % (ztype, ltype, wtype)
             n = sym.fresh_int("n_obs")
             run.assume(n >= 1)
             zm = arrays.fresh_array("zm_" + ztype, [n], ztype)
-            L, ws, ust = [arrays.fresh_array(nm + ztype, [n], "float") for nm in ("mo_len", "ws", "ustar")]
+            L = arrays.fresh_array("mo_len_" + ltype + ztype, [n], ltype)
+            ws, ust = [arrays.fresh_array(nm + wtype + ztype + ltype, [n], wtype) for nm in ("ws", "ustar")]
             k = sym.fresh_int("k")
             rng = [(k >= 0) & (k < n), num(zm.at(k)) > 0, num(L.at(k)) != 0, num(ws.at(k)) > 0]
             p = spec_params(num(zm.at(k)), Num(1), ws.at(k), ust.at(k), L.at(k))
@@ -175,8 +179,8 @@ def generate(ctx):
                                         ("_psiM", ns["_psiM"], (zm, L), "psi_m"), ("_nParam", ns["_nParam"], (zm, L), "n"),
                                         ("_mParam", ns["_mParam"], (zm, ws, ust, L), "m")):
                 r = fn(*args)
-                run.oblige("%s[%s heights] == published expression" % (name, ztype), loops.scalar_eq(r.at(k), p[key]), kind="post", view="value",
-                           assuming=rng)
+                run.oblige("%s[%s] == published expression" % (name, tag), loops.scalar_eq(r.at(k), p[key]), kind="post", view="value",
+                           assuming=rng + [num(ust.at(k)) > 0])
     ctx.explore("km.helpers", t_helpers, P)
 
     # estimateZ0 without smoothing inverts the diabatic log law
